@@ -142,6 +142,9 @@ def gen_tokens(rng, cfg, size, allow_undef=True):
                     tok["addend"] = rng.choice([4, 8, 16])
                 elif v < 0.45 and fam in ("x64", "arm64") and not pe:
                     tok["got"] = True
+                    if fam == "x64" and rng.random() < 0.5:
+                        # the thread-local and other ELF relocation variants, written like @GOTPCREL
+                        tok["variant"] = rng.choice(["GOTTPOFF", "GOTNTPOFF", "TPOFF", "NTPOFF", "DTPOFF", "TLSGD"])
                 elif v < 0.6 and fam in ("arm64", "mips"):
                     tok["lo12"] = True
                     if rng.random() < 0.5:
@@ -163,9 +166,9 @@ def gen_tokens(rng, cfg, size, allow_undef=True):
                     tok["addend"] = rng.choice([1, 4, 8])
                 toks.append(tok)
             elif k < 0.70:
-                toks.append({"t": "string", "s": rng.choice(["", "a", "hi", "xyz"])})
+                toks.append({"t": "string", "s": rng.choice(["", "a", "hi", "xyz", "\x00", "\x00"])})
             elif k < 0.78:
-                toks.append({"t": "ascii", "s": rng.choice(["", "a", "ab", "q"])})
+                toks.append({"t": "ascii", "s": rng.choice(["", "a", "ab", "q", "\x00", "\x00", "a\x00"])})
             elif k < 0.86:
                 toks.append({"t": "zero", "n": rng.choice([0, 1, 1, 2, 3, 4, 6])})
             elif k < 0.95:
